@@ -94,6 +94,16 @@ func genPow(t *rapid.T, c arith.Case) arith.Case {
 		c.X = core.Dec{Coeff: one.String(), Exp: int32(-k)}
 	case 1: // short coefficients: exact results that fit
 		c.X = core.Dec{Coeff: gen.Digits(t, 4, "pshort"), Exp: int32(rapid.IntRange(-6, 6).Draw(t, "pse"))}
+		if gen.Pick(t, 2, "psmooth") == 0 {
+			// 2^a * 5^b: bases whose negative powers terminate, with coefficients on both sides
+			// of 64 and 128 bits
+			v := new(big.Int).Exp(big.NewInt(2), big.NewInt(int64(rapid.IntRange(0, 70).Draw(t, "psa"))), nil)
+			v.Mul(v, new(big.Int).Exp(big.NewInt(5), big.NewInt(int64(rapid.IntRange(0, 58).Draw(t, "psb"))), nil))
+			c.X = core.Dec{Coeff: v.String(), Exp: int32(rapid.IntRange(-30, 6).Draw(t, "psse"))}
+			if c.Ctx.P < 20 {
+				c.Ctx.P += 20
+			}
+		}
 	default:
 		c.X = gen.LogArg(t, c.Ctx, 6, "x")
 	}
